@@ -1,22 +1,21 @@
 /-
-  IQE.Lemmas.Pruning — soundness of the TRANSLATED range tables (`Gen.Pruning.eval_range*`, `definite_table`, `flip_op`)
+  IQE.Lemmas.Pruning — soundness of the range tables (`eval_range*`, `definite_table`, `flip_op`; hand copies proved equal to the translated ones in IQE.Props.C05)
   and of the hand model of the recursive pruning functions built on them (IQE.Engine.Pruning).
 -/
 import IQE.Engine.Pruning
 import IQE.Lemmas.F64Order
 namespace IQE.Engine.Pruning
 open IQE
-open IQE.Gen.Pruning (BinaryOp flip_op eval_range eval_range_i32 eval_range_f64 eval_range_str definite_table)
 
 /-! ### integer tables -/
 
 theorem eval_range_sound (op : BinaryOp) (val mn mx v : Int) (h1 : mn ≤ v) (h2 : v ≤ mx) (h : satI op v val = true) :
     eval_range op val mn mx = true := by
-  cases op <;> simp_all [eval_range, satI, Rs.Cmp.le, Rs.Cmp.lt, Rs.Cmp.eq, Rs.gt, Rs.ge] <;> omega
+  cases op <;> simp_all [eval_range, evalRangeG, satI, Rs.Cmp.le, Rs.Cmp.lt, Rs.Cmp.eq, Rs.gt, Rs.ge] <;> omega
 
 theorem eval_range_i32_sound (op : BinaryOp) (val mn mx v : Int) (h1 : mn ≤ v) (h2 : v ≤ mx) (h : satI op v val = true) :
     eval_range_i32 op val mn mx = true := by
-  cases op <;> simp_all [eval_range_i32, satI, Rs.Cmp.le, Rs.Cmp.lt, Rs.Cmp.eq, Rs.gt, Rs.ge] <;> omega
+  cases op <;> simp_all [eval_range_i32, evalRangeG, satI, Rs.Cmp.le, Rs.Cmp.lt, Rs.Cmp.eq, Rs.gt, Rs.ge] <;> omega
 
 theorem definiteInt_sound (op : BinaryOp) (val mn mx v : Int) (h1 : mn ≤ v) (h2 : v ≤ mx) (h : definiteInt op mn mx val = true) :
     satI op v val = true := by
@@ -55,7 +54,7 @@ theorem eval_range_f64_sound (op : BinaryOp) (val mn mx v : F64) (hmn : mn.isNaN
   have hk := keys_ok hv hval
   have hk' := keys_ok hval hv
   simp only [F64.le, hmn, hmx, hv.1, Bool.not_false, Bool.true_and, decide_eq_true_eq] at h1 h2
-  cases op <;> simp_all [eval_range_f64, satF, satI, ieee_lt, ieee_le, ieee_eq, Rs.gt, Rs.ge, hval.1] <;> omega
+  cases op <;> simp_all [eval_range_f64, evalRangeG, satF, satI, ieee_lt, ieee_le, ieee_eq, Rs.gt, Rs.ge, hval.1] <;> omega
 
 theorem definite_table_sound (op : BinaryOp) (val mn mx v : F64) (hmn : mn.isNaN = false) (hmx : mx.isNaN = false)
     (hv : fOk v) (hval : fOk val) (h1 : F64.le mn v = true) (h2 : F64.le v mx = true) (h : definite_table op mn mx val = true) :
@@ -182,7 +181,7 @@ theorem bytes_le_antisymm {a b : List UInt8} (h1 : Rs.bytesLe a b = true) (h2 : 
 
 theorem eval_range_str_sound (op : BinaryOp) (val mn mx v : Rs.Str) (h1 : Rs.bytesLe mn.utf8 v.utf8 = true) (h2 : Rs.bytesLe v.utf8 mx.utf8 = true)
     (h : satS op v val = true) : eval_range_str op val mn mx = true := by
-  cases op <;> simp only [satS, eval_range_str, Rs.Cmp.le, Rs.Cmp.lt, Rs.Cmp.eq, Rs.gt, Rs.ge, Bool.and_eq_true, decide_eq_true_eq] at h ⊢ <;> try trivial
+  cases op <;> simp only [satS, eval_range_str, evalRangeG, Rs.Cmp.le, Rs.Cmp.lt, Rs.Cmp.eq, Rs.gt, Rs.ge, Bool.and_eq_true, decide_eq_true_eq] at h ⊢ <;> try trivial
   · subst h; exact ⟨h1, h2⟩
   · simp only [Bool.not_eq_true', Bool.and_eq_false_iff, decide_eq_false_iff_not, ne_eq]
     by_cases hm : mn = val
@@ -272,10 +271,10 @@ theorem litOk_colLit {l r : Opd} {c : Nat} {lit : Lit} {fl : Bool} (h : colLit l
 theorem tables_noncmp (dev : Dev) (st : Stats) (eop : BinaryOp) (he : isCmpOp eop = false) :
     (∀ v, checkI64 st eop v = true) ∧ (∀ v, checkI32 dev st eop v = true) ∧ (∀ v, checkF64 st eop v = true) ∧ (∀ v, checkUtf8 st eop v = true) := by
   refine ⟨fun v => ?_, fun v => ?_, fun v => ?_, fun v => ?_⟩
-  · unfold checkI64; split <;> (try rfl) <;> cases eop <;> simp_all [isCmpOp, eval_range]
-  · unfold checkI32; split <;> (try rfl) <;> (try split) <;> cases eop <;> simp_all [isCmpOp, eval_range, eval_range_i32]
-  · unfold checkF64; split <;> (try rfl) <;> cases eop <;> simp_all [isCmpOp, eval_range_f64]
-  · unfold checkUtf8; split <;> (try rfl) <;> cases eop <;> simp_all [isCmpOp, eval_range_str]
+  · unfold checkI64; split <;> (try rfl) <;> cases eop <;> simp_all [isCmpOp, eval_range, evalRangeG]
+  · unfold checkI32; split <;> (try rfl) <;> (try split) <;> cases eop <;> simp_all [isCmpOp, eval_range, eval_range_i32, evalRangeG]
+  · unfold checkF64; split <;> (try rfl) <;> cases eop <;> simp_all [isCmpOp, eval_range_f64, evalRangeG]
+  · unfold checkUtf8; split <;> (try rfl) <;> cases eop <;> simp_all [isCmpOp, eval_range_str, evalRangeG]
 
 theorem checkComparison_noncmp (dev : Dev) (l r : Opd) (op : BinaryOp) (rg : Rg) (hop : isCmpOp op = false) :
     checkComparison dev l op r rg = true := by
